@@ -222,22 +222,17 @@ func genAmmoCase(r *vh.Rand, format string) string {
 	var file []byte
 	switch format {
 	case "json":
+		// line by line (jsonline), each line an object whose MEMBERS are chosen one by one: the
+		// optional ones (tag, headers, body) may be absent, null, written twice, or stand beside
+		// members that name no field; tokens J:<member>,... say what is written on the line
 		var sb strings.Builder
 		for i := 0; i < n; i++ {
-			e := a07ammo.Entity{Host: r.Pick([]string{"ya.net", "h", "example.com:8080"}), Method: r.Pick([]string{"GET", "POST"}),
-				URI: r.Pick(ammoPaths) + r.Pick(ammoQueries), Tag: r.Pick(ammoTags)}
-			if r.Chance(1, 2) {
-				e.Headers = map[string]string{"X-Verif": "ok:" + r.Pick(ammoStatus)}
-			}
-			if e.Method == "POST" {
-				e.Body = r.Pick(ammoBodies)
-			}
-			b, _ := json.Marshal(e)
-			sb.Write(b)
+			text, tok := genJSONLine(r)
+			sb.WriteString(text)
 			if i < n-1 || fin {
 				sb.WriteByte('\n')
 			}
-			toks = append(toks, a07ammo.EntityToken(e))
+			toks = append(toks, tok)
 		}
 		file = []byte(sb.String())
 	default:
@@ -289,6 +284,85 @@ func genAmmoCase(r *vh.Rand, format string) string {
 		kf, vh.B(fin), vh.Hex(file), strings.Join(toks, " "))
 }
 
+// genJSONLine: one line of an http/json file as a list of object members.
+// token members: h.<host> m.<method> u.<uri> t.<tag> b.<body> H.<k>=<v>;... (H.- = empty object)
+// o.<key> (a member that stores nothing: unknown key or null value); all values hex.
+func genJSONLine(r *vh.Rand) (string, string) {
+	type member struct{ text, tok string }
+	js := func(v string) string { b, _ := json.Marshal(v); return string(b) }
+	key := func(k string) string {
+		// encoding/json matches field names case-insensitively
+		switch r.Intn(8) {
+		case 0:
+			return strings.ToUpper(k[:1]) + k[1:]
+		case 1:
+			return strings.ToUpper(k)
+		}
+		return k
+	}
+	str := func(k, letter, v string) member { return member{js(key(k)) + ":" + js(v), letter + "." + vh.HexS(v)} }
+	ignoredKeys := []string{"tags", "comment", "ta", "tag_", "id", "header"}
+	method := r.Pick([]string{"GET", "POST"})
+	ms := []member{
+		str("host", "h", r.Pick([]string{"ya.net", "h", "example.com:8080"})),
+		str("method", "m", method),
+		str("uri", "u", r.Pick(ammoPaths)+r.Pick(ammoQueries)),
+	}
+	// tag: written (2/3 of them non-empty), absent, null, or only a near-miss key
+	switch r.Intn(6) {
+	case 0, 1, 2:
+		ms = append(ms, str("tag", "t", r.Pick(ammoTags[2:])))
+		if r.Chance(1, 6) {
+			// written twice: the last one counts
+			ms = append(ms, str("tag", "t", r.Pick(ammoTags)))
+		}
+	case 3:
+		if r.Chance(1, 3) {
+			ms = append(ms, str("tag", "t", ""))
+		}
+	case 4:
+		ms = append(ms, member{js(key("tag")) + ":null", "o." + vh.HexS("tag")})
+	case 5:
+		k := r.Pick(ignoredKeys)
+		ms = append(ms, member{js(k) + ":" + js(r.Pick(ammoTags[2:])), "o." + vh.HexS(k)})
+	}
+	// headers: choose the answered status, or empty object / null / absent
+	switch r.Intn(6) {
+	case 0, 1, 2:
+		v := "ok:" + r.Pick(ammoStatus)
+		ms = append(ms, member{js(key("headers")) + ":{" + js("X-Verif") + ":" + js(v) + "}", "H." + vh.HexS("X-Verif") + "=" + vh.HexS(v)})
+	case 3:
+		ms = append(ms, member{js(key("headers")) + ":{}", "H.-"})
+	case 4:
+		ms = append(ms, member{js(key("headers")) + ":null", "o." + vh.HexS("headers")})
+	}
+	if method == "POST" {
+		if r.Chance(3, 4) {
+			ms = append(ms, str("body", "b", r.Pick(ammoBodies)))
+		}
+	} else if r.Chance(1, 5) {
+		ms = append(ms, str("body", "b", ""))
+	}
+	if r.Chance(1, 6) {
+		k := r.Pick(ignoredKeys)
+		ms = append(ms, member{js(k) + ":" + r.Pick([]string{"1", "\"x\"", "[1,2]", "{\"tag\":\"in\"}", "true"}), "o." + vh.HexS(k)})
+	}
+	if r.Chance(1, 2) {
+		// any order of the members (the relative order of the two tag members is part of the token)
+		for i := len(ms) - 1; i > 0; i-- {
+			j := r.Intn(i + 1)
+			ms[i], ms[j] = ms[j], ms[i]
+		}
+	}
+	var texts, toks []string
+	for _, m := range ms {
+		texts = append(texts, m.text)
+		toks = append(toks, m.tok)
+	}
+	sep := r.Pick([]string{",", ",", ", ", " , "})
+	return "{" + strings.Join(texts, sep) + "}", "J:" + strings.Join(toks, ",")
+}
+
 func genAmmo(r *vh.Rand, tier string) []string {
 	n := 30
 	if tier == "thorough" {
@@ -296,7 +370,8 @@ func genAmmo(r *vh.Rand, tier string) []string {
 	}
 	var out []string
 	for i := 0; i < n; i++ {
-		for _, format := range []string{"uri", "uripost", "raw", "json"} {
+		// json twice: the members of a line are a dimension of their own
+		for _, format := range []string{"uri", "uripost", "raw", "json", "json"} {
 			out = append(out, genAmmoCase(r, format))
 		}
 	}
